@@ -13,6 +13,12 @@
 //! (MAYV_APANIC percent per round) and block inside the bottom half (MAYV_BBLOCK percent).  MAYV_CANCEL=1: a
 //! thread cancels the owner coroutine at a seeded virtual time / hook point.
 //! MAYV_MODE=select: the owner runs `select!` with MAYV_ARMS arms instead (oneshot arms made by the macro).
+//! MAYV_BUSY=ns: arm i (i >= 1) is BUSY for i * ns of virtual time at the start of its first top half: it keeps its worker
+//! thread without any cancellation point (the thread sleeps, not the coroutine), so a cancel of the arm (Cqueue::finish)
+//! does not end it at once and the owner really parks in the final drain of cqueue::scope / select!.
+//! MAYV_CAIM=drain (with MAYV_CANCEL=1): the canceller waits until the owner has begun the final drain (the closure of
+//! cqueue::scope was left / the winning arm of select! has run), then MAYV_BUSY/2 longer, and cancels the owner THERE:
+//! parked in poll(None) with the cancel disabled.  The drain must go on waiting for the busy arm.
 //!
 //! Oracles (implementation side, independent of the Coq model):
 //!  * consumed once: an event (arm, round) is returned by poll at most once, only after it was sent;
@@ -70,6 +76,7 @@ struct Cfg {
     polls: u64,
     bpanic: u64,
     o2d: bool,
+    busy: u64,
 }
 
 struct Sh {
@@ -95,6 +102,7 @@ struct Sh {
     userpoll: AtomicBool,       // the owner is inside a poll it called from the closure
     poll_seq: AtomicUsize,      // polls started
     stale: AtomicBool,          // O2: thread::panicking() was seen set on the poller's thread while the poller was not unwinding
+    draining: AtomicBool,       // the owner has begun (or is about to begin) the final drain of cqueue::scope / select!
 }
 
 struct Rng(u64);
@@ -123,6 +131,12 @@ fn nap(d: u64) {
         may::coroutine::sleep(Duration::from_nanos(d));
     } else if d > 0 {
         c.sleep_ns(d);
+    }
+}
+/// MAYV_BUSY: the arm computes for a while: its worker THREAD is kept for i * busy ns, no cancellation point inside
+fn busy_start(sh: &Arc<Sh>, i: usize) {
+    if sh.cfg.busy > 0 && i > 0 {
+        mayv::ctx().sleep_ns(sh.cfg.busy * i as u64);
     }
 }
 fn pause(r: &mut Rng) {
@@ -167,6 +181,9 @@ impl Drop for ArmGuard {
 
 fn top_half(sh: &Arc<Sh>, i: usize, round: usize, r: &mut Rng, g: &mut ArmGuard) {
     let c = mayv::ctx();
+    if round == 0 {
+        busy_start(sh, i);
+    }
     let d = if sh.cfg.eq { 1_000_000 } else { DURS[(r.next() % DURS.len() as u64) as usize] };
     if sh.cfg.eq || r.pct(70) {
         nap(d);
@@ -298,6 +315,7 @@ fn cq_owner(sh: &Arc<Sh>, seed: u64) {
             impl Drop for ClosureEnd {
                 fn drop(&mut self) {
                     self.0.inpoll.store(true, SeqCst);
+                    self.0.draining.store(true, SeqCst);
                 }
             }
             let _ce = ClosureEnd(sh.clone());
@@ -450,7 +468,12 @@ fn finish_checks(sh: &Arc<Sh>, res: std::thread::Result<()>) {
                 if np == 0 {
                     c.fail(format!("the owner got a panic nobody raised: {msg}"));
                 }
-            } else if msg == "owner-panic" || sh.cancelled.load(SeqCst) {
+            } else if msg.contains("cqueue drop unreachable") {
+                // Cqueue::finish drains with poll(None): the only way out of that loop is Finished
+                c.fail(format!("the final drain of cqueue::scope / select! was ended by poll(None) reporting Timeout although no time was given (cancelled: {}): the scope was left by the internal panic `{msg}` instead of waiting for its arms and returning", sh.cancelled.load(SeqCst)));
+                sh.owner_unwound.store(true, SeqCst);
+            } else if msg == "owner-panic" || (sh.cancelled.load(SeqCst) && e.downcast_ref::<String>().is_none() && e.downcast_ref::<&str>().is_none()) {
+                // the owner's own panic, or the Cancel error of a cancelled owner (not a message)
                 sh.owner_unwound.store(true, SeqCst);
             } else {
                 c.fail(format!("unexpected panic out of the scope: {msg}"));
@@ -510,6 +533,7 @@ fn sel_top(sh: &Arc<Sh>, i: usize, seed: u64) -> SelArm {
     sh.started[i].store(true, SeqCst);
     let mut r = Rng::new(seed ^ (i as u64 + 1).wrapping_mul(0x9E3779B97F4A7C15));
     let mut tg = TopGuard(sh.clone(), i, false);
+    busy_start(sh, i);
     let d = if sh.cfg.eq { 1_000_000 } else { DURS[(r.next() % DURS.len() as u64) as usize] };
     if sh.cfg.eq || r.pct(70) {
         nap(d);
@@ -554,6 +578,8 @@ fn sel_bot(sh: &Arc<Sh>, i: usize, seed: u64, g: &mut SelArm) {
     sh.botdone[i].fetch_add(1, SeqCst);
     c.log("arm.end", i as u64, 0, None);
     g.normal = true;
+    // the winning arm has run: poll returns its event, select! leaves the closure and drains
+    sh.draining.store(true, SeqCst);
 }
 
 fn select_owner(sh: &Arc<Sh>, seed: u64) {
@@ -640,7 +666,9 @@ fn main() {
         polls: envn("MAYV_POLLS", 40),
         bpanic: envn("MAYV_BPANIC", 0),
         o2d: envn("MAYV_O2D", 0) == 1,
+        busy: envn("MAYV_BUSY", 0),
     };
+    let caim_drain = envs("MAYV_CAIM", "") == "drain";
     let owner_co = envs("MAYV_OWNER", "co") != "th";
     let cancel = envn("MAYV_CANCEL", 0) == 1;
     let select = envs("MAYV_MODE", "cq") == "select";
@@ -676,6 +704,7 @@ fn main() {
             userpoll: AtomicBool::new(false),
             poll_seq: AtomicUsize::new(0),
             stale: AtomicBool::new(false),
+            draining: AtomicBool::new(false),
         });
         let seed = ctx.rand();
         let done = Arc::new(AtomicBool::new(false));
@@ -722,6 +751,18 @@ fn main() {
                             }
                             n += 1;
                         }
+                    } else if caim_drain {
+                        // cancel the owner while it is parked in the final drain (cancel disabled there)
+                        let mut n = 0u64;
+                        while !sh2.draining.load(SeqCst) && !d2.load(SeqCst) {
+                            if n < 2000 {
+                                c.yield_now();
+                            } else {
+                                c.sleep_ns(20_000);
+                            }
+                            n += 1;
+                        }
+                        c.sleep_ns(sh2.cfg.busy / 2 + (dt % 1000));
                     } else if dt > 0 {
                         c.sleep_ns(dt);
                     }
